@@ -273,3 +273,41 @@ class ReconstructThroughInitEngine:
         for m in c.extra.get("forbidden_methods", ()):
             emit(f"class-defines-no:{m}", m not in defs, classctx)
         return obls
+
+
+class TokenKeysEngine:
+    """obligations over the callbacks of a lark Transformer: a parameter that receives a NAME token is used as a KEY (subscript index, or
+    attribute name handed to getattr / setattr on a reference) only through its `.value` -- the token itself is a str subclass with a
+    repr of its own, so a reference keyed by it is a different access path from the one keyed by the plain text."""
+
+    def __init__(self, registry, opts=None):
+        self.reg = registry
+        self.trivial_frames = 0
+
+    def verify(self, c, fdef, classctx=None):
+        params = [a.arg for a in fdef.args.args][1:]
+        tokens = [p for p in params if p in c.extra.get("token_params", ())]
+        obls = []
+
+        def emit(node, p, ok, how):
+            src = _norm(ast.unparse(node))[:60]
+            name = f"{c.module}:{c.qualname}#token-used-as-key-through-.value:{p}:{how}:{src}"
+            n = sum(1 for o in obls if o.name.split("[")[0] == name)
+            obls.append(Obligation(name if n == 0 else f"{name}[{n}]", "post", [], z3.BoolVal(ok), c.qualname, getattr(node, "lineno", 0)))
+
+        def bare(n, p):
+            return isinstance(n, ast.Name) and n.id == p
+
+        def valued(n, p):
+            return isinstance(n, ast.Attribute) and n.attr == "value" and bare(n.value, p)
+        for node in ast.walk(fdef):
+            for p in tokens:
+                if isinstance(node, ast.Subscript):
+                    if bare(node.slice, p) or valued(node.slice, p):
+                        emit(node, p, valued(node.slice, p), "subscript")
+                if isinstance(node, ast.Call) and isinstance(node.func, ast.Name) and node.func.id in ("getattr", "setattr") and len(node.args) >= 2:
+                    if c.extra.get("check_getattr", False) and (bare(node.args[1], p) or valued(node.args[1], p)):
+                        emit(node, p, valued(node.args[1], p), node.func.id)
+        if len(obls) < c.min_obligations:
+            raise StaleContract(f"{c.qualname}: {len(obls)} key uses of the token parameters {tokens} found, contract expects {c.min_obligations}")
+        return obls
